@@ -87,6 +87,39 @@ def run(ck):
     one_line(ck, one)
     handler_protocol(ck)
     per_call_answers(ck, (ini, one))
+    front_ends_forward(ck)
+
+
+def front_ends_forward(ck):
+    """C19-O6: the configuration front-ends are thin wrappers around the two configure() functions; an argument that does not arrive
+    there is a setting the caller made and the library ignored."""
+    F = ck.facts
+    ck.rule("C19-O6", "every configuration front-end (configure*/configureFromIniFile of the library and of Logger) uses each of its parameters, and when it delegates to another front-end, "
+                      "a parameter of the callee that has the same name as one of its own receives that parameter (not the callee's default)")
+    fes = [f for f in F.fns.values() if f.body is not None and f.name.split("::")[-1] in ("configure", "configureFromIniFile") and (f.name.startswith("QtLogger::configure") or strip_tmpl(f.cls or "") in ("QtLogger::Logger", "QtLogger::SimplePipeline"))]
+    ck.require(len(fes) >= 5, "only %d configuration front-ends found (5 confirmed by hand)" % len(fes))
+    fe_ids = {f.id for f in fes}
+    for f in sorted(fes, key=lambda f: (f.file, f.line, f.sig)):
+        ck.touch(f)
+        short = f.sig.split("QtLogger::")[-1][:70]
+        unused = [p["name"] for p in f.params if p.get("name") and not any(x.get("k") == "ref" and x.get("decl") == p["decl"] for x in f.all_nodes())]
+        ck.ob("C19-O6", sitestr(f), not unused, "%s uses all its parameters" % short if not unused else "%s ignores its parameter %s: whatever the caller passes, the logger is configured as if it had not" % (short, ", ".join(unused)),
+              key="front-end|unused|%s" % f.name.split("::")[-1])
+        mine = {p["name"]: p["decl"] for p in f.params if p.get("name")}
+        for c in f.calls():
+            callee = F.fns.get(c.get("fn"))
+            if callee is None or callee.id not in fe_ids or callee.id == f.id:
+                continue
+            args = c.get("args", [])
+            for i, p in enumerate(callee.params):
+                nm = p.get("name")
+                if nm not in mine:
+                    continue
+                a = args[i] if i < len(args) else None
+                passed = isinstance(a, dict) and a.get("k") != "defaultarg" and any(x.get("k") == "ref" and x.get("decl") == mine[nm] for x in walk(a))
+                ck.ob("C19-O6", sitestr(f, c), passed, "%s passes its %s on to %s" % (short, nm, callee.name.split("QtLogger::")[-1]) if passed else
+                      "%s calls %s with %s for `%s` instead of its own `%s`" % (short, callee.name.split("QtLogger::")[-1], "the default" if (a is None or a.get("k") == "defaultarg") else describe(a)[:40], nm, nm),
+                      key="front-end|forward|%s|%s" % (f.name.split("::")[-1], nm))
 
 
 def per_call_answers(ck, roots):
@@ -273,7 +306,22 @@ def ini_rules(ck, fn):
     order.append(("RegExpFilter", s))
     s1 = check_guard("PatternFormatter", ["message_pattern"], lambda a: a, "message_pattern is non-empty",
                      lambda c, n: ck.ob("C19-O2", sitestr(fn, n), arg_is_key(c, 0, "message_pattern"), "PatternFormatter(message_pattern)", key="ini|arg|PatternFormatter"))
-    s2 = check_guard("PrettyFormatter", ["message_pattern"], lambda a: not a, "message_pattern is empty")
+    def default_format(c, n):
+        # no message_pattern: the library's default text format, i.e. what PrettyFormatter::instance() produces — the object itself or
+        # a formatter constructed with the same parameters (colour, category column width)
+        from rules.oth import construction_tuple
+        inst = F.fn("QtLogger::PrettyFormatter::instance", optional=True)
+        ref = None
+        if inst is not None:
+            ic = [x for x in inst.calls() if (x.get("callee") or "").startswith("QSharedPointer<QtLogger::PrettyFormatter>::create")]
+            ref = construction_tuple(F, "QtLogger::PrettyFormatter", ic[0], inst) if len(ic) == 1 else None
+        got = construction_tuple(F, "QtLogger::PrettyFormatter", c, fn)
+        if ref is None or got is None:
+            ck.ob("C19-O2", sitestr(fn, n), None, "default format: construction parameters of the formatter (%s) or of PrettyFormatter::instance() (%s) could not be tabulated" % (got, ref), key="ini|arg|PrettyFormatter")
+        else:
+            ck.ob("C19-O2", sitestr(fn, n), got == ref, "no message_pattern: the default format %s" % dict(ref) if got == ref else
+                  "no message_pattern: the formatter is built with %s, the library's default format (PrettyFormatter::instance()) with %s" % (dict(got), dict(ref)), key="ini|arg|PrettyFormatter")
+    s2 = check_guard("PrettyFormatter", ["message_pattern"], lambda a: not a, "message_pattern is empty", default_format)
     order.append(("formatter", s1))
     order.append(("formatter", s2))
 
